@@ -36,6 +36,7 @@
 #include "driveselector.h"     // for VolumeSelector
 #include "media.h"             // for AbstractImageFile, make_image_file
 #include "storage.h"           // for DriveAllocation, DriveAllocation::PHYS...
+#include "verif_hooks.h"       // for BEEBTOOLS_VERIF_TRACE
 
 namespace
 {
@@ -221,6 +222,11 @@ namespace DFS
   }
 }  // namespace DFS
 
+#ifdef BEEBTOOLS_VERIF
+// The real main function is renamed so that the wrapper at the end of
+// this file can report that (and how) it returned.
+#define main beebtools_verif_real_main
+#endif
 int main (int argc, char *argv[])
 {
   if (!check_consistency())
@@ -354,3 +360,13 @@ int main (int argc, char *argv[])
       return 1;
     }
 }
+
+#ifdef BEEBTOOLS_VERIF
+#undef main
+int main(int argc, char *argv[])
+{
+  const int rv = beebtools_verif_real_main(argc, argv);
+  BEEBTOOLS_VERIF_TRACE("RET %d\n", rv);
+  return rv;
+}
+#endif
